@@ -412,6 +412,118 @@ Qed.
 
 End MachineProofs.
 
+(* ------------------------------------------------------------------ invariants of every reachable state *)
+Section Invariants.
+Variable M : Num.
+Context {A Obs : Type}.
+Variable K : @rclass M A Obs.
+Notation reducer := (@reducer M A).
+Notation ring := (@ring A unit).
+Notation rpush := (@push A unit rcast (kfill K)).
+
+Definition state_ok (r : reducer) : Prop := rwf M r /\ rinv M K r.
+
+Lemma push_ok (s : ring) o ip s' out : wf s -> rpush s o ip = Ok s' out -> wf s' /\ N s' = N s /\ full s'.
+Proof.
+  intros Hwf H.
+  destruct (step_wf rcast rpromote rdeqb (kfill K) s (OpPush o ip) s' out Hwf H) as (Hw' & HN').
+  split; [exact Hw'|]. split; [exact HN'|].
+  unfold push in H. destruct (write rcast _ o 0 ip) as [s2 o2|e]; [|discriminate].
+  destruct (incr s2 1) as [s3 o3|e] eqn:Ei; [|discriminate]. injection H as <- _.
+  unfold incr in Ei. destruct (st s2) eqn:E2; try discriminate. injection Ei as <- _.
+  unfold full. cbn. rewrite E2. exact I.
+Qed.
+Lemma initialize_wf (s : ring) sh : 0 < N s -> wf (initialize (kfill K) s sh tt) /\ N (initialize (kfill K) s sh tt) = N s.
+Proof. intros Hn. unfold initialize, wf. destruct (st s); cbn; rewrite ?repeat_length; repeat split; lia. Qed.
+
+Lemma ok_transfer (r r' : reducer) : state_ok r ->
+  rdt r' = rdt r -> rdur r' = rdur r -> rincl r' = rincl r -> rdecay r' = rdecay r ->
+  (kcounts K = false -> rcount r' = rcount r) -> N (rrec r') = N (rrec r) ->
+  wf (rrec r') -> (rinit r' = false -> full (rrec r')) -> state_ok r'.
+Proof.
+  intros (_ & HN & Hd & Hc) E1 E2 E3 E4 E5 E6 Hw Hf. split; [split; assumption|].
+  unfold rinv. rewrite E1, E2, E3, E4, E6. split; [exact HN|]. split; [exact Hd|].
+  intros Hk. rewrite (E5 Hk). apply Hc; exact Hk.
+Qed.
+Lemma bump_count (r : reducer) : kcounts K = false -> rcount (bump M K r) = rcount r.
+Proof. intros Hk. unfold bump. rewrite Hk. reflexivity. Qed.
+Lemma ok_Npos (r : reducer) : state_ok r -> 0 < N (rrec r).
+Proof. intros ((Hw & _) & _). apply Hw. Qed.
+
+Lemma forward_ok r sh obs : state_ok r -> state_ok (res_state (forward M K r sh obs)).
+Proof.
+  intros Hok. pose proof Hok as ((Hwf & Hfull) & _). pose proof (ok_Npos r Hok) as Hn.
+  pose proof (same_cfg_bump M K r) as (b1 & b2 & b3 & b4 & b5).
+  unfold forward. fold (bump M K r). destruct (rinit r) eqn:Ei; cbn [negb].
+  - destruct (ignored (rrec r)) eqn:Eig.
+    + destruct (initialize_wf (rrec r) sh Hn) as (Hwi & HNi).
+      destruct (rpush (initialize (kfill K) (rrec r) sh tt) _ (rinpl r)) as [rec' o'|e] eqn:Ep; cbn [res_state].
+      * destruct (push_ok _ _ _ _ _ Hwi Ep) as (Hw' & HN' & Hf').
+        apply (ok_transfer r); cbn; auto using bump_count; congruence.
+      * apply (ok_transfer r); cbn; auto using bump_count. rewrite rinit_bump, Ei. discriminate.
+    + destruct (rpush (rrec r) _ (rinpl r)) as [rec' o'|e] eqn:Ep; cbn [res_state].
+      * destruct (push_ok _ _ _ _ _ Hwf Ep) as (Hw' & HN' & Hf').
+        apply (ok_transfer r); cbn; auto using bump_count.
+      * apply (ok_transfer r); cbn; auto using bump_count. rewrite rinit_bump, Ei. discriminate.
+  - specialize (Hfull eq_refl).
+    assert (Hb : state_ok (bump M K r)).
+    { apply (ok_transfer r); auto using bump_count; rewrite ?rrec_bump; auto. }
+    destruct (peek (rrec r)) as [s0 [| | |d shs els|]|e]; cbn [res_state]; try exact Hb;
+      try (rewrite rrec_bump;
+           destruct (rpush (rrec r) _ (rinpl r)) as [rec' o'|e'] eqn:Ep; cbn [res_state]; [|exact Hb];
+           destruct (push_ok _ _ _ _ _ Hwf Ep) as (Hw' & HN' & Hf');
+           apply (ok_transfer r); cbn; auto using bump_count).
+    destruct (kcheck K && negb (shape_eqb sh shs)); cbn [res_state]; [exact Hb|].
+    rewrite rrec_bump.
+    destruct (rpush (rrec r) _ (rinpl r)) as [rec' o'|e'] eqn:Ep; cbn [res_state]; [|exact Hb].
+    destruct (push_ok _ _ _ _ _ Hwf Ep) as (Hw' & HN' & Hf').
+    apply (ok_transfer r); cbn; auto using bump_count.
+Qed.
+
+Lemma resize_rows_length sh (rows : list (list A)) n' : length (resize_rows M K sh rows n') = n'.
+Proof.
+  unfold resize_rows. destruct (Nat.ltb_spec n' (length rows)).
+  - rewrite skipn_length. lia.
+  - rewrite app_length, repeat_length. lia.
+Qed.
+
+Lemma set_dt_ok r v : state_ok r -> state_ok (res_state (rd_set_dt M K r v)).
+Proof.
+  intros Hok. pose proof Hok as ((Hwf & Hfull) & (HN & Hd & Hc)). pose proof (ok_Npos r Hok) as Hn.
+  unfold rd_set_dt. destruct (negb (gtb M v (zero M))); [exact Hok|]. cbn [res_state].
+  assert (Hpos : 0 < Z.to_nat (recordsz_expr M (rdur r) v (rincl r))) by (unfold recordsz_expr; lia).
+  assert (H1 : forall r1 : reducer,
+             r1 = r \/ r1 = mkRed v (rdur r) (rincl r) (rinpl r) (rdecay r) (rcount r) (rinit r) (record_set_dt M K r v) ->
+             rwf M r1 /\ N (rrec r1) = Z.to_nat (recordsz_expr M (rdur r1) (rdt r1) (rincl r1)) /\ rcount r1 = rcount r).
+  { intros r1 [-> | ->]; [repeat split; auto|]. cbn [rrec rdt rdur rincl rcount rinit].
+    unfold record_set_dt. set (n' := Z.to_nat (recordsz_expr M (rdur r) v (rincl r))) in *.
+    destruct (Nat.eqb_spec n' (N (rrec r))) as [E|E].
+    - repeat split; auto.
+    - destruct (st (rrec r)) as [|d|d sh rows] eqn:Est.
+      + split; [|split; reflexivity]. split; [|intros Ei; specialize (Hfull Ei); unfold full in Hfull; rewrite Est in Hfull; contradiction].
+        destruct Hwf as (_ & Hp & _). unfold wf. cbn. repeat split; auto.
+        (* pointer of ignored storage *) unfold full in *. lia.
+      + split; [|split; reflexivity]. split; [|intros Ei; specialize (Hfull Ei); unfold full in Hfull; rewrite Est in Hfull; contradiction].
+        destruct Hwf as (_ & Hp & _). unfold wf. cbn. repeat split; auto. lia.
+      + assert (Hf : full (rrec r)) by (unfold full; rewrite Est; exact I).
+        destruct (align_spec rcast rpromote rdeqb (kfill K) (rrec r) 0 Hwf Hf ltac:(lia))
+          as (s1 & Ha & Hw1 & HN1 & Hp1 & (d1 & sh1 & Est0 & Est1) & _).
+        rewrite Ha, Est1. split; [|split; reflexivity]. split.
+        * unfold wf. cbn. rewrite resize_rows_length. repeat split; lia.
+        * intros _. unfold full. cbn. exact I. }
+  set (r1 := if neb M v (rdt r) then _ else r).
+  assert (Hr1 : rwf M r1 /\ N (rrec r1) = Z.to_nat (recordsz_expr M (rdur r1) (rdt r1) (rincl r1)) /\ rcount r1 = rcount r).
+  { apply H1. unfold r1. destruct (neb M v (rdt r)); auto. }
+  destruct Hr1 as (Hw1 & HN1 & Hc1).
+  assert (Hdec1 : kdecay K = None -> rdecay r1 = rdecay r) by (intros _; unfold r1; destruct (neb M v (rdt r)); reflexivity).
+  destruct (kdecay K) as [f|] eqn:Ek.
+  - split; [exact Hw1|]. unfold rinv. cbn. rewrite Ek. split; [exact HN1|]. split; [reflexivity|].
+    intros Hk. rewrite Hc1. apply Hc; exact Hk.
+  - split; [exact Hw1|]. unfold rinv. rewrite Ek. split; [exact HN1|]. split; [rewrite Hdec1 by reflexivity; exact Hd|].
+    intros Hk. rewrite Hc1. apply Hc; exact Hk.
+Qed.
+End Invariants.
+
 Arguments bump {M A Obs} K r.
 Arguments rhist {M A} r.
 Arguments rwf {M A} r.
